@@ -35,7 +35,7 @@ def main():
             return 2
         results = {}
         for p in args.props:
-            env = dict(os.environ, PV_REPO=dst, VERIF_SEED=args.seed)
+            env = dict(os.environ, PV_REPO=dst, VERIF_SEED=args.seed, PV_OUT=os.path.join(scratch, "out"))
             env.pop("PYTHONPATH", None)
             pr = subprocess.run([str(ROOT / "check"), p, "--tier", args.tier], cwd=str(ROOT), env=env,
                                 capture_output=True, text=True)
